@@ -82,6 +82,14 @@ class C12(PropBase):
             vals = [(copy.deepcopy(v), copy.deepcopy(v)) for v in rng.sample(pool, min(len(pool), rng.randint(3, 5)))]
             items.append({"variants": [t], "vals": vals, "marshal_heavy": True})
             items.append(items[-1])  # twice as likely to be drawn
+        retry = None
+        if rng.random() < 0.3:
+            # a small recursive class of the run's own: inputs that are refused deep inside the recursion,
+            # repaired in place and submitted again as the same objects
+            world["modules"][0]["decls"].append({"d": "raw", "n": "VwNode12", "src": (
+                "@dataclasses.dataclass\nclass VwNode12:\n    v: int\n    nxt: 'VwNode12 | None' = None\n"
+                "    kids: 'list[VwNode12]' = dataclasses.field(default_factory=list)\n")})
+            retry = {"k": "ref", "m": mods[0], "n": "VwNode12"}
         steps: list[dict] = []
         n = rng.randint(2, 25 if tier == "quick" else 60)
         builds = []
@@ -96,6 +104,21 @@ class C12(PropBase):
                         f["id"] = len(steps)
                         steps.append(f)
                         continue
+            if retry is not None and rng.random() < 0.25:
+                depth = rng.randint(1, 5)
+                via = [rng.choice(["nxt", "kids"]) for _ in range(depth)]
+                node = {"$dict": [["v", rng.randint(0, 9)]]}
+                for e in reversed(via):
+                    node = {"$dict": [["v", rng.randint(0, 9)], [e, node if e == "nxt" else {"$list": [node]}]]}
+                path = []
+                for e in via:
+                    path += [e] if e == "nxt" else [e, 0]
+                tt = rng.choice([retry, {"k": "list", "a": retry}])
+                if tt["k"] == "list":
+                    node, path = {"$list": [node]}, [0] + path
+                steps.append({"id": len(steps), "op": "retry_repaired", "t": tt, "mod": mods[0], "x": node, "path": path, "field": "v",
+                              "bad": rng.choice([{"$list": [{"$list": []}]}, "not-a-number", None])})
+                continue
             it = rng.choice(items)
             t = rng.choice(it["variants"])
             v, w = rng.choice(it["vals"])
@@ -224,6 +247,12 @@ class C12(PropBase):
             sess.keepalive.append(sess.inputs[sid])
         # (a) equals its cold execution under the same environment
         cstep = step
+        if step["op"] == "retry_repaired":
+            first, _ = sess.retry
+            if first.ok:
+                return
+            # the reference: the repaired input alone, in a pristine process
+            cstep = {"op": "unmarshal", "t": step["t"], "mod": step["mod"], "x": step["x"], "id": step.get("id", i)}
         if "from" in step:
             src = sess.results.get(step["from"])
             if not isinstance(src, (bytes, bytearray)):
